@@ -1,6 +1,6 @@
 SPECIFICATION Spec
 CONSTANTS
-  LockedSteps = {"LoopReturns"} Transport = "legacy" ClosesReplaced = TRUE
+  LockedSteps = {} Transport = "legacy" ClosesReplaced = FALSE
 INVARIANTS NothingBeforeTheEnd GaugeNeverNegative
 PROPERTIES EndingReleasesEverything
 CHECK_DEADLOCK FALSE
